@@ -95,12 +95,21 @@ theorem nr_handleAckTimer {s : State} (h : NR s) (now : Nat) (c : Bool) : NR (ha
   simp only [handleAckTimer]
   nrt [nr_handleFault]
 
-theorem nr_handleTimeout {s : State} (h : NR s) (now : Nat) : NR (handleTimeout s now) := by
+theorem nr_handleTimeoutMain {s : State} (h : NR s) (now : Nat) : NR (handleTimeoutMain s now) := by
   have h1 : NR (handleInactivity (handleDelayed s now) now).1 :=
     nr_handleInactivity (by unfold NR at *; simpa only [recvState_handleDelayed] using h) now
   unfold NR at *
-  simp only [handleTimeout]
+  simp only [handleTimeoutMain]
   nrt [nr_handleAckTimer]
+
+
+theorem nr_handleTimeout {s : State} (h : NR s) (now : Nat) : NR (handleTimeout s now) := by
+  simp only [handleTimeout, unackFinishedLimit]
+  repeat' split
+  all_goals first
+    | exact h
+    | (unfold NR at *; simpa only [recvState_shutdown] using h)
+    | (apply nr_handleTimeoutMain; unfold NR at *; exact h)
 
 /-! ### PDUs reaching a transaction that has left ReceiveData -/
 
